@@ -74,7 +74,7 @@ where
     {
         let m = pattern.len();
         self.D[0].clear();
-        self.D[0].extend(repeat(k + 1).take(m + 1));
+        self.D[0].extend(repeat(k.saturating_add(1)).take(m + 1));
         self.D[1].clear();
         self.D[1].extend(0..=m);
         Matches {
